@@ -19,6 +19,7 @@ const (
 	Scr  = "scr"  // a fixed bijective scramble of the integers
 	Half = "half" // coarsened, many-to-one: k>>1
 	Mod5 = "mod5" // coarsened, many-to-one: k mod 5
+	Mag  = "mag"  // natural order, but the result is a magnitude (3*(a-b)), not -1/0/+1
 )
 
 var (
@@ -27,15 +28,29 @@ var (
 	scrF  = func(a, b int) int { return cmp.Compare(scramble(a), scramble(b)) }
 	halfF = func(a, b int) int { return cmp.Compare(a>>1, b>>1) }
 	mod5F = func(a, b int) int { return cmp.Compare(mod(a, 5), mod(b, 5)) }
+	// keys are far below 2^61 in magnitude everywhere, so 3*(a-b) cannot overflow;
+	// the extreme keys of the wild domains are clamped first
+	magF = func(a, b int) int { return 3 * (clamp(a) - clamp(b)) }
 )
+
+func clamp(k int) int {
+	const lim = 1 << 59
+	if k > lim {
+		return lim
+	}
+	if k < -lim {
+		return -lim
+	}
+	return k
+}
 
 func scramble(k int) uint64 { return uint64(k) * 0x9E3779B97F4A7C15 }
 func mod(a, m int) int      { return ((a % m) + m) % m }
 
 // AllCmps is the whole family; TotalCmps are the one-to-one members.
 var (
-	AllCmps   = []string{Nat, Rev, Scr, Half, Mod5}
-	TotalCmps = []string{Nat, Rev, Scr}
+	AllCmps   = []string{Nat, Rev, Scr, Half, Mod5, Mag}
+	TotalCmps = []string{Nat, Rev, Scr, Mag}
 )
 
 // Cmp returns the shared function value for an id.
@@ -51,6 +66,8 @@ func Cmp(id string) func(a, b int) int {
 		return halfF
 	case Mod5:
 		return mod5F
+	case Mag:
+		return magF
 	}
 	panic("dom: unknown comparator " + id)
 }
